@@ -5,6 +5,6 @@ s=/var/tmp/tryseed-$$; rm -rf $s; mkdir -p $s
 git -C /repo archive HEAD | tar -x -C $s
 (cd $s && git apply --whitespace=nowarn $d/patch.diff) || { echo "patch does not apply"; rm -rf $s; exit 2; }
 for c in ${checks//,/ }; do
-  ESUTIL_VERIF_REPO=$s VERIF_EVIDENCE_DIR=/var/tmp/tryseed-evidence /verif/check $c --tier $tier 2>&1 | grep -E "^\[|class |VIOLATION|OK tier|KNOWN" | tail -${TAILN:-14}
+  ESUTIL_VERIF_REPO=$s VERIF_EVIDENCE_DIR=/var/tmp/tryseed-evidence /verif/check $c --tier $tier 2>&1 | grep -a -E "^\[|class |VIOLATION|OK tier|KNOWN" | tail -${TAILN:-14}
 done
 rm -rf $s
